@@ -579,7 +579,8 @@ impl State {
         }
         segment.min_coord = self.min_coord as i16;
         segment.max_coord = self.max_coord as i16;
-        segment.height = segment.max_coord - segment.min_coord;
+        // FreeType computes this as an int and truncates to a short
+        segment.height = segment.max_coord.wrapping_sub(segment.min_coord);
     }
 }
 
